@@ -272,6 +272,35 @@ func c17BurstBody(evs []string, viaHub bool) func() {
 	}
 }
 
+// c17RequestBody: the hub asks for the current entries (RequestMdnsEntries, on a goroutine of its own) while the
+// resolver delivers an event; when everything is quiet the last delivered list must be the final set.
+func c17RequestBody(evs []string) func() {
+	return func() {
+		simrt.ClearTraceHooks()
+		m := mdns.NewMDNS(localSKI, "b", "m", "t", "s", nil, "me", "svc-me", 4700, nil, mdns.MdnsProviderSelectionGoZeroConfOnly)
+		r := &rec{name: "m"}
+		_ = m.Start(r)
+		simrt.Quiesce()
+		ref := refModel{}
+		e0, _ := c17Entry("add:S2:a1")
+		fakezeroconf.TheEther().Inject(e0, false)
+		ref.apply("add:S2:a1")
+		simrt.Quiesce()
+		simrt.Mark()
+		simrt.Go("hub-request", func() { m.RequestMdnsEntries() })
+		for _, ev := range evs {
+			e, rm := c17Entry(ev)
+			fakezeroconf.TheEther().Inject(e, rm)
+			ref.apply(ev)
+		}
+		simrt.Quiesce()
+		if got, want := entriesString(r.last()), ref.String(); got != want && entriesKey(m) == want {
+			simrt.Fail("C17|last-report-stale", "mDNS activity stopped with the set %s but the last list delivered to the application is %s (a RequestMdnsEntries call overlapped the events %v)", want, got, evs)
+		}
+		simrt.Outcome(entriesString(r.last()))
+	}
+}
+
 func c17Scenarios(r *hx.Run) []hx.Scenario {
 	// bursts whose final set does not depend on the processing order of the events
 	bursts := [][]string{
@@ -290,6 +319,10 @@ func c17Scenarios(r *hx.Run) []hx.Scenario {
 			out = append(out, hx.Scenario{Name: name, Body: c17BurstBody(b, viaHub), Bounds: simrt.B(1, 0, 0),
 				Cfg: simrt.Config{MaxSteps: 200000, BranchAfterMark: true, BranchOnly: []string{"eportMdnsEntries", "mdns.deliver", "chanListener"}}})
 		}
+	}
+	for _, evs := range [][]string{{"add:S1:a1"}, {"rm:S2"}, {"add:S2:a2"}} {
+		out = append(out, hx.Scenario{Name: "c17:request-vs-event:" + strings.Join(evs, ","), Body: c17RequestBody(evs), Bounds: simrt.B(1, 0, 0),
+			Cfg: simrt.Config{MaxSteps: 200000, BranchAfterMark: true, BranchOnly: []string{"hub-request", "eportMdnsEntries", "mdns.deliver", "chanListener"}}})
 	}
 	return out
 }
